@@ -420,6 +420,14 @@ def is_instance(value: Any, type_: Any) -> bool:
     has been called.
     """
 
+    if type_ == Any:
+        return True
+
+    # Unions are checked member by member (before the isinstance shortcut below,
+    # which would accept a bool for an int member of the union)
+    if is_union(type_):
+        return any(is_instance(value, t) for t in get_args(type_))
+
     # We do not want Python implicit isinstance(True, int) == True
     if type_ is int and isinstance(value, bool):
         return False
@@ -432,14 +440,6 @@ def is_instance(value: Any, type_: Any) -> bool:
             return True
     except TypeError:
         pass
-    if type_ == Any:
-        return True
-
-    if is_optional(type_) and value is None:
-        return True
-
-    if is_union(type_):
-        return any(is_instance(value, t) for t in get_args(type_))
 
     if is_collection(type_):
         orig = get_origin(type_)
